@@ -72,6 +72,19 @@ func (testSrv) ServerStream(req *testproto.ServerStreamRequest, s grpc.ServerStr
 		}()
 		defer func() { close(stop); <-done }()
 	}
+	if req.NumRes%3 == 2 {
+		// a goroutine the handler leaves behind keeps adding trailer metadata for a little while after the call has
+		// ended: the client was given the trailer as it was when the call ended, reading it must not race with this
+		_ = s.SendHeader(md("h2", "sent-early"))
+		go func() {
+			for i := 0; i < 400; i++ {
+				s.SetTrailer(md("tx", fmt.Sprint(i)))
+				if i%4 == 3 {
+					runtime.Gosched()
+				}
+			}
+		}()
+	}
 	if req.NumRes%2 == 0 {
 		_ = s.SendHeader(md("h2", "sent"))
 	}
@@ -338,7 +351,7 @@ func buildWrap(rng *vk.Rand, nOps int) *Prog {
 			p.add(gi, "wrap.ServerStream/header-race", func(g *G) {
 				for k := 0; k < reps; k++ {
 					ctx, cancel := context.WithCancel(context.Background())
-					st, err := client.ServerStream(ctx, &testproto.ServerStreamRequest{NumRes: []int32{1, 4}[k%2]})
+					st, err := client.ServerStream(ctx, &testproto.ServerStreamRequest{NumRes: []int32{1, 4, 2, 5}[k%4]})
 					if err != nil {
 						g.errs++
 						cancel()
@@ -355,6 +368,8 @@ func buildWrap(rng *vk.Rand, nOps int) *Prog {
 					}
 					h, _ = st.Header()
 					g.sink += readMD(h) + readMD(st.Trailer())
+					runtime.Gosched()
+					g.sink += readMD(st.Trailer()) // once more, while a left-behind goroutine of the handler may still be busy
 					cancel()
 				}
 			})
